@@ -2,6 +2,8 @@ package main
 
 import (
 	"fmt"
+	"go/ast"
+	"go/parser"
 	"go/token"
 	"go/types"
 	"os"
@@ -15,7 +17,7 @@ import (
 func newFnCtx(g *Global, fn *ssa.Function, con *FuncContract) *fnCtx {
 	c := &fnCtx{g: g, fn: fn, con: con, vals: map[ssa.Value]SymVal{}, out: map[*ssa.BasicBlock]*State{},
 		edge: map[[2]int]string{}, counts: map[string]int{}, comps: map[string]string{}, compDeclared: map[string]bool{},
-		strlits: map[string]string{}, flags: map[string]string{}, fired: map[int]bool{}, implDone: map[string]bool{}, loopOf: map[*ssa.BasicBlock]*loopInfo{},
+		strlits: map[string]string{}, flags: map[string]string{}, fired: map[int]bool{}, anchorLines: map[int][]int{}, implDone: map[string]bool{}, loopOf: map[*ssa.BasicBlock]*loopInfo{},
 		dbg: map[string][]dbgRef{}, lets: map[string]SymVal{}, paramVals: map[string]SymVal{},
 		unboxDeclared: map[string]bool{}, specFnDeclared: map[string]bool{}, calleeCount: map[string]int{}, assumedUsed: map[string]bool{}}
 	c.fnName = shortFnName(g.funcKey[fn])
@@ -571,11 +573,31 @@ func (c *fnCtx) fireAnchors(st *State, b *ssa.BasicBlock, in ssa.Instruction) {
 		if a.Anchor == "" || c.fired[i] {
 			continue
 		}
-		re, err := regexp.Compile(a.Anchor)
+		pat, occ := a.Anchor, 1
+		if k := strings.LastIndex(pat, "/#"); k >= 0 {
+			fmt.Sscanf(pat[k+2:], "%d", &occ)
+			pat = pat[:k]
+		}
+		re, err := regexp.Compile(pat)
 		if err != nil {
 			c.abort("%s: bad anchor: %v", a.Pos, err)
 		}
 		if !re.MatchString(line) {
+			continue
+		}
+		// n-th distinct matching source line
+		ln := c.g.prog.Fset.Position(in.Pos()).Line
+		seen := c.anchorLines[i]
+		found := false
+		for _, l := range seen {
+			if l == ln {
+				found = true
+			}
+		}
+		if !found {
+			c.anchorLines[i] = append(c.anchorLines[i], ln)
+		}
+		if len(c.anchorLines[i]) != occ || found {
 			continue
 		}
 		c.fired[i] = true
@@ -601,6 +623,47 @@ func (c *fnCtx) fireAnchors(st *State, b *ssa.BasicBlock, in ssa.Instruction) {
 				kind = "assert:" + a.Label
 			}
 			c.oblige(st, kind, t, a.Text, c.propsFor(a.Props), in.Pos())
+		case "apply":
+			// apply /anchor/ lemma(args): assume an instance of a lemma that is proved on its own
+			ex, err := parser.ParseExpr(a.Text)
+			if err != nil {
+				c.abort("%s: apply: %v", a.Pos, err)
+			}
+			call, ok := ex.(*ast.CallExpr)
+			if !ok {
+				c.abort("%s: apply needs lemma(args)", a.Pos)
+			}
+			name := call.Fun.(*ast.Ident).Name
+			var ld *PkgDecl
+			for i := range c.g.cs.Decls {
+				d := &c.g.cs.Decls[i]
+				if d.Kind == "lemma" && (strings.HasPrefix(d.Text, name+"(") || strings.HasPrefix(d.Text, "bv "+name+"(")) {
+					ld = d
+				}
+			}
+			if ld == nil {
+				c.abort("%s: apply: no lemma %s", a.Pos, name)
+			}
+			text := strings.TrimPrefix(ld.Text, "bv ")
+			k := strings.Index(text, "):")
+			sf, err := parseSpecFn(text[:k+1]+" bool", ld.Pkg, ld.Pos)
+			if err != nil || len(sf.Params) != len(call.Args) {
+				c.abort("%s: apply %s: bad arguments", a.Pos, name)
+			}
+			le := c.newEnv(st, c.entry)
+			le.calleePkg = ld.Pkg
+			for i, p := range sf.Params {
+				v, err := env.eval(call.Args[i])
+				if err != nil {
+					c.abort("%s: apply %s: %v", a.Pos, name, err)
+				}
+				le.vars[p.Name] = v
+			}
+			t, err := le.evalBool(strings.TrimSpace(text[k+2:]))
+			if err != nil {
+				c.abort("%s: apply %s: %v", a.Pos, name, err)
+			}
+			c.assume(st, t)
 		case "assume":
 			t, err := env.evalBool(a.Text)
 			if err != nil {
